@@ -20,8 +20,8 @@ import (
 	"github.com/IrineSistiana/mosdns/v5/pkg/pool"
 	"github.com/IrineSistiana/mosdns/v5/pkg/server"
 	"github.com/IrineSistiana/mosdns/v5/pkg/server_handler"
-	cacheplugin "github.com/IrineSistiana/mosdns/v5/plugin/executable/cache"
 	"github.com/IrineSistiana/mosdns/v5/plugin/executable/arbitrary"
+	cacheplugin "github.com/IrineSistiana/mosdns/v5/plugin/executable/cache"
 	hostsplugin "github.com/IrineSistiana/mosdns/v5/plugin/executable/hosts"
 	"github.com/IrineSistiana/mosdns/v5/plugin/executable/redirect"
 	"github.com/IrineSistiana/mosdns/v5/plugin/executable/sequence"
@@ -64,17 +64,17 @@ type Query struct {
 }
 
 type Up struct {
-	Rcode      int  `json:"rcode"`
-	TargetSize int  `json:"target_size"` // approximate packed size of the upstream answer (0 = no records)
-	Err        bool `json:"err"`
-	TC         bool `json:"tc"`
-	WithOpt    bool `json:"with_opt"`
+	Rcode      int    `json:"rcode"`
+	TargetSize int    `json:"target_size"` // approximate packed size of the upstream answer (0 = no records)
+	Err        bool   `json:"err"`
+	TC         bool   `json:"tc"`
+	WithOpt    bool   `json:"with_opt"`
 	EmptyFor   uint16 `json:"empty_for"` // queries of this type get an empty NOERROR answer (0 = none): the name "has no record of that type"
 }
 
 type Case struct {
 	Main    []Rule  `json:"main"`
-	Prim    []Rule  `json:"primary"`   // sub-sequences for the fallback plugin
+	Prim    []Rule  `json:"primary"` // sub-sequences for the fallback plugin
 	Sec     []Rule  `json:"secondary"`
 	Lazy    bool    `json:"lazy_cache"`
 	Up      Up      `json:"upstream"`
@@ -158,12 +158,20 @@ func genCase(t *rapid.T) Case {
 	limits := []int{512, 1232, 4096}
 	nq := rapid.IntRange(1, 5).Draw(t, "nq")
 	for i := 0; i < nq; i++ {
+		sameOpt := false
 		q := Query{ID: uint16(rapid.IntRange(0, 65535).Draw(t, "id")), RD: rapid.Bool().Draw(t, "rd"), AD: rapid.IntRange(0, 3).Draw(t, "ad") == 0, CD: rapid.IntRange(0, 3).Draw(t, "cd") == 0, Z: rapid.IntRange(0, 7).Draw(t, "z") == 0}
 		if tgt, isAlias := redirectTarget[strings.ToLower(prevName(c.Queries, i))]; i > 0 && isAlias && rapid.Bool().Draw(t, "askTarget") {
 			// the previous query was for a redirected name: now ask for its target directly (same type and class)
 			q.Name, q.Type, q.Class = tgt, c.Queries[i-1].Type, c.Queries[i-1].Class
 		} else if i > 0 && rapid.Bool().Draw(t, "repeat") { // repeats hit state left by earlier queries (cache, selector memory)
 			q.Name, q.Type, q.Class = c.Queries[i-1].Name, c.Queries[i-1].Type, c.Queries[i-1].Class
+			if rapid.Bool().Draw(t, "otherCase") {
+				// the same question in another letter case (0x20 style), same DNSSEC flags: whatever state the first
+				// query left must not leak its spelling of the name into this reply
+				q.Name = swapCase(q.Name)
+				q.AD, q.CD = c.Queries[i-1].AD, c.Queries[i-1].CD
+				sameOpt = true
+			}
 		} else {
 			q.Name = names[rapid.IntRange(0, len(names)-1).Draw(t, "name")]
 			q.Type = rapid.SampledFrom([]uint16{1, 1, 28, 28, 16, 5, 15, 255, 257, 65280}).Draw(t, "type")
@@ -179,6 +187,9 @@ func genCase(t *rapid.T) Case {
 				o.Options = append(o.Options, rapid.SampledFrom([]uint16{8, 10, 12, 65001, 15}).Draw(t, "ocode"))
 			}
 			q.Opt = o
+		}
+		if sameOpt {
+			q.Opt = c.Queries[i-1].Opt
 		}
 		if rapid.IntRange(0, 9).Draw(t, "mal") == 0 {
 			q.Malformed = rapid.SampledFrom([]string{"qr", "q0", "q2", "answer", "ns", "extra2"}).Draw(t, "malk")
@@ -337,6 +348,19 @@ func buildQuery(q Query) *dns.Msg {
 		m.Extra = append(m.Extra, extra, dns.Copy(extra))
 	}
 	return m
+}
+
+func swapCase(s string) string {
+	b := []byte(s)
+	for i, ch := range b {
+		switch {
+		case ch >= 'a' && ch <= 'z':
+			b[i] = ch - 32
+		case ch >= 'A' && ch <= 'Z':
+			b[i] = ch + 32
+		}
+	}
+	return string(b)
 }
 
 func rrs(s []dns.RR) []string {
